@@ -261,6 +261,7 @@ def run_case(case: dict[str, Any], d: Path) -> dict[str, Any]:
             prev = make_command({**case, "kind": "return", "point": "main", "pre_hook": "none", "post_hook": "none", "db_close": None}, d)
             with mock.patch("gallia.plugins.plugin.load_transport", lambda target: Loader):
                 res["prev_rc"] = await prev.entry_point()
+        res["t_make"] = time.time()
         cmd = make_command(case, d)
         res["cmd"] = cmd
         res["start_config"] = json.loads(cmd.config.model_dump_json())
@@ -294,6 +295,7 @@ def run_case(case: dict[str, Any], d: Path) -> dict[str, Any]:
                 res["rc"] = await cmd.entry_point()
             except BaseException as e:  # noqa: BLE001
                 res["escaped"] = f"{type(e).__name__}: {e}"
+            res["t_done"] = time.time()
 
     import logging
     import threading
@@ -479,6 +481,11 @@ def check(case: dict[str, Any]) -> list[tuple[str, str]]:
                 t0, t1 = datetime.fromisoformat(meta["start_time"]), datetime.fromisoformat(meta["end_time"])
                 if t0 > t1:
                     out.append(("C15/meta-times", f"{ctx}: start {meta['start_time']} > end {meta['end_time']}"))
+                # the times are those of THIS run: not before the command object was made, not after entry_point() returned
+                lo, hi = res.get("t_make"), res.get("t_done")
+                if lo is not None and hi is not None and not (lo - 0.05 <= t0.timestamp() <= t1.timestamp() <= hi + 0.05):
+                    out.append(("C15/meta-times/not-of-this-run", f"{ctx}: start {meta['start_time']} end {meta['end_time']}, the run took place "
+                                f"between {datetime.fromtimestamp(lo).isoformat()} and {datetime.fromtimestamp(hi).isoformat()} (local time)"))
             except Exception as e:  # noqa: BLE001
                 out.append(("C15/meta-times", f"{ctx}: {e!r}: {meta.get('start_time')!r} {meta.get('end_time')!r}"))
             try:
